@@ -102,15 +102,22 @@ def fr(a):
 
 # ------------------------------------------------------------------ quadrature oracle
 def gh_nodes(mu, S, n=60):
+    """quadrature nodes / weights for N(mu, S): D = 1 Gauss-Hermite (smooth integrands only); D >= 2 a composite
+    Gauss-Legendre tensor rule in whitened coordinates on [-8, 8]^D (resolves bumps much narrower than p(x))"""
     import numpy as np
-    z, w = np.polynomial.hermite_e.hermegauss(n)
-    w = w / math.sqrt(2 * math.pi)
     D = len(mu)
     L = np.linalg.cholesky(S)
     if D == 1:
+        z, w = np.polynomial.hermite_e.hermegauss(n)
+        w = w / math.sqrt(2 * math.pi)
         return (mu[None] + (L @ z[None]).T), w
-    Z = np.stack(np.meshgrid(*([z] * D), indexing="ij"), axis=-1).reshape(-1, D)
-    Wt = np.prod(np.stack(np.meshgrid(*([w] * D), indexing="ij"), axis=-1).reshape(-1, D), axis=1)
+    nsub, order = (32, 12) if D == 2 else (10, 6)
+    zz, ww = np.polynomial.legendre.leggauss(order)
+    edges = np.linspace(-8.0, 8.0, nsub + 1)
+    z1 = np.concatenate([0.5 * (b - a) * zz + 0.5 * (a + b) for a, b in zip(edges[:-1], edges[1:])])
+    w1 = np.concatenate([0.5 * (b - a) * ww for a, b in zip(edges[:-1], edges[1:])]) * np.exp(-0.5 * z1 ** 2) / math.sqrt(2 * math.pi)
+    Z = np.stack(np.meshgrid(*([z1] * D), indexing="ij"), axis=-1).reshape(-1, D)
+    Wt = np.prod(np.stack(np.meshgrid(*([w1] * D), indexing="ij"), axis=-1).reshape(-1, D), axis=1)
     return mu[None] + Z @ L.T, Wt
 
 
